@@ -627,7 +627,7 @@ func (c *pctx) PathExpr(t *rapid.T, depth int) string {
 	case 15:
 		return "recurse(" + pick(t, "rf", []string{".[]?", ".a?", ".[0]?", ".[1:]? | select(length > 0)"}) + ")"
 	case 16:
-		return "(" + pick(t, "src", []string{"0", "1", "\"a\"", "(0,1)", "\"a\",\"b\"", "-1", "length?"}) + " as $i | .[$i]?)"
+		return "((" + pick(t, "src", []string{"0", "1", "\"a\"", "0,1", "\"a\",\"b\"", "-1", "length?"}) + ") as $i | .[$i]?)"
 	default:
 		return ".[" + pick(t, "idxexpr", []string{"0", "1", "-1", "\"a\"", "\"b\"", "0,1", "\"a\",\"b\"", "1:", ":1", "1:2", "-1:", "null:1", "0.5", "1.5:"}) + "]"
 	}
@@ -788,5 +788,14 @@ func RewriteBiased(conf Conf) *rapid.Generator[Prog] {
 		}
 		sort.Strings(fs)
 		return Prog{Src: core, Features: fs}
+	})
+}
+
+// PathExprOnly generates expressions of the path-safe grammar of C02.
+func PathExprOnly(depth int) *rapid.Generator[string] {
+	return rapid.Custom(func(t *rapid.T) string {
+		b := 100
+		c := &pctx{feats: map[string]bool{}, budget: &b}
+		return c.PathExpr(t, rapid.IntRange(0, depth).Draw(t, "pdepth"))
 	})
 }
